@@ -261,10 +261,20 @@ func (c *ctx) prepare() {
 			os.MkdirAll(dir, 0o755)
 			pdir := filepath.Join(verifDir, "probes", j.probe)
 			ents, _ := os.ReadDir(pdir)
+			vd, verr := loadVariant(j.probe, j.variant)
+			if verr != nil {
+				errs[i] = verr.Error()
+				return
+			}
 			for _, e := range ents {
 				switch {
 				case strings.HasSuffix(e.Name(), ".graphql"):
 					cp(filepath.Join(pdir, e.Name()), filepath.Join(dir, e.Name()))
+					if vd.RenameMutation {
+						b, _ := os.ReadFile(filepath.Join(dir, e.Name()))
+						src := strings.Replace(string(b), "type Mutation {", "schema { query: Query mutation: RootMutation subscription: Subscription }\n\ntype RootMutation {", 1)
+						os.WriteFile(filepath.Join(dir, e.Name()), []byte(src), 0o644)
+					}
 				case strings.HasSuffix(e.Name(), ".go.txt") && e.Name() != "glue.go.txt":
 					cp(filepath.Join(pdir, e.Name()), filepath.Join(dir, strings.TrimSuffix(e.Name(), ".txt")))
 				}
@@ -300,6 +310,26 @@ type variantDef struct {
 	Extra       string `json:"extra"`
 	Federation  string `json:"federation"`
 	Models      string `json:"models"`
+	// RenameMutation generates the probe with a mutation root type that is not called Mutation
+	// (schema { mutation: RootMutation }).
+	RenameMutation bool `json:"rename_mutation"`
+}
+
+func loadVariant(probe, name string) (*variantDef, error) {
+	b, err := os.ReadFile(filepath.Join(verifDir, "probes", probe, "variants.json"))
+	if err != nil {
+		return nil, err
+	}
+	var vs []variantDef
+	if err := json.Unmarshal(b, &vs); err != nil {
+		return nil, err
+	}
+	for i := range vs {
+		if vs[i].Name == name {
+			return &vs[i], nil
+		}
+	}
+	return nil, fmt.Errorf("unknown variant %s/%s", probe, name)
 }
 
 func probeConfig(probe, name string) (string, error) {
@@ -657,6 +687,15 @@ func (c *ctx) confirm(r *runResult, processLevel bool) (string, error) {
 		writeJSON(tmp, rf)
 		// replay in a fresh process
 		rr, stderr, rerr := c.single("replay", tmp, nil)
+		sameInvariant := rr != nil && rr.Violation != nil && rr.Violation.Property == r.Violation.Property && rr.Violation.Invariant == r.Violation.Invariant
+		if sameInvariant && rr.Violation.fingerprint() != fp {
+			// same invariant, different site label: the defect is schedule-dependent below the
+			// seams (e.g. which of two racing elements shows the wrong value); still a
+			// reproduced violation of the same invariant
+			rf.Trace = rr.Trace
+			writeJSON(path, rf)
+			return path, nil
+		}
 		if rr == nil || rr.Violation == nil || rr.Violation.fingerprint() != fp {
 			// the replay may die of a process-level violation of the same run (race detector,
 			// crash): that confirms a violation of the property too
